@@ -764,3 +764,19 @@ package io
 //@   havoc
 //@   use decwf
 //@   modifies ghost.rpos[ival(dec.reader)], ghost.rfailed[ival(dec.reader)]
+
+// an object decoded into a map: the class on the wire may name fields the registered struct does
+// not have; the lookup in the field table can miss, and a missed lookup must not be used (C04)
+//@ func (mapDecoder).canDecodeObjectAsMap
+//@   nopanic
+//@ func (mapDecoder).decodeObjectAsMap
+//@   prop C04
+//@   havoc
+//@   flag nilcheck
+//@   flag bounds=panic
+//@   requires dec != nil && 0 <= dec.head && dec.head <= dec.tail && dec.tail <= len(dec.buf)
+//@   requires dec.reader != nil ==> ghost.rpos[ival(dec.reader)] >= dec.tail &&
+//@       forall(j, off(dec.buf) + dec.head, off(dec.buf) + dec.tail, mem(dec.buf, j) == ghost.rstream[ival(dec.reader)][ghost.rpos[ival(dec.reader)] - dec.tail - off(dec.buf) + j])
+//@   requires dec.reader != nil ==> dec.buf == nil || len(dec.buf) > 0
+//@   requires valdec.t != nil
+//@   modifies ghost.*
